@@ -3,7 +3,7 @@
    is_interleaving, cur_row).  Concurrency model: each writing transaction is one atomic step (SQLite write pool
    MaxOpenConns(1), _txlock=immediate), so an execution of n writers is an interleaving of whole steps; theorems quantify
    over ALL schedules that are interleavings of the writers' programs (induction over the schedule). *)
-From Verif Require Import Bytes Codec Md5 Meta MetaBasics MetaWitness MetaConc MetaConcBase MetaConcState MetaConcAppend MetaConcCond.
+From Verif Require Import Bytes Codec Md5 Meta MetaBasics MetaWitness MetaConc MetaConcBase MetaConcState MetaConcAppend MetaConcCond MetaIP MetaIPProofs.
 From Coq Require Import Permutation.
 
 (* ---- commit point: a conditional write commits only if its condition holds for the object it replaces (ANY state) ---- *)
@@ -106,6 +106,52 @@ Proof.
   intros cr H. cbn [step cw_step resolve_vref]. destruct (resolve_cond hist cr); try reflexivity. contradiction.
 Qed.
 Print Assumptions C07_writer_step_is_model_step.
+
+(* ================= READ COMMITTED visibility (a backend that does not serialize write transactions) =================
+   Model/MetaIP.v: the victim PutObject as its sequence of repository calls (dedup lookup, FindObjectByBucketNameAndKey,
+   the If-None-Match re-read, UpdateObjectByIdAndOptimisticLockVersion = compare-and-swap on the version column,
+   FindNullObjectVersion, the writes); an arbitrary RIVAL (any function on the row store) runs at boundary p and is
+   visible to every later statement.  Quantified over ALL boundaries p and ALL rivals. *)
+
+(* acknowledged with If-Match e: the condition was evaluated on a row a of s_read (not a delete marker, ETag e) and
+   the compare-and-swap on a's version succeeded in s_cas, the state the write was applied to; in between at most the rival *)
+Theorem C07_ip_if_match_cas_guard : forall p (rv : rivalf) s0 vn b k c e s' r ro,
+  ip_put p rv s0 vn b k c (CIfMatch e) = (s', r, ro) -> (forall x, r <> RErr x) ->
+  exists s_read s_cas a x,
+    find_latest s_read b k = Some a /\ o_dm a = false /\ etag_eqb (o_etag a) e = true /\
+    (s_cas = s_read \/ s_cas = fst (rv s_read)) /\
+    In x (objs s_cas) /\ o_id x = o_id a /\ o_lock x = o_lock a.
+Proof. exact ip_put_if_match_cas. Qed.
+Print Assumptions C07_ip_if_match_cas_guard.
+
+(* with a rival that respects the version column (a row that keeps id and version keeps all its fields — every UPDATE of
+   the repositories increments optimistic_lock_version), the condition holds AT THE LINEARISATION POINT: the state the
+   victim's write is applied to still contains, unchanged and flagged latest, the object with ETag e.  Hence of two
+   conflicting conditional writers the one that got in between makes the other fail *)
+Theorem C07_ip_if_match_holds_at_linearization_point : forall p (rv : rivalf) s0 vn b k c e s' r ro,
+  (forall s a a', In a (objs s) -> In a' (objs (fst (rv s))) -> o_id a' = o_id a -> o_lock a' = o_lock a -> a' = a) ->
+  ip_put p rv s0 vn b k c (CIfMatch e) = (s', r, ro) -> (forall x, r <> RErr x) ->
+  exists s_cas a, In a (objs s_cas) /\ on_key b k a = true /\ completed a = true /\ o_latest a = true /\
+                  o_dm a = false /\ etag_eqb (o_etag a) e = true.
+Proof. exact ip_put_if_match_linearizes. Qed.
+Print Assumptions C07_ip_if_match_holds_at_linearization_point.
+
+(* If-None-Match:* : acknowledged only if the key resolved to nothing at the victim's (re-)read, and its insert passed the
+   unique index on (bucket, key, is_latest): a rival that created the object in between makes it fail (PreconditionFailed) *)
+Theorem C07_ip_if_none_match_guard : forall p (rv : rivalf) s0 vn b k c s' r ro,
+  ip_put p rv s0 vn b k c CIfNoneMatchStar = (s', r, ro) -> (forall x, r <> RErr x) ->
+  (exists s_read, cur_row s_read b k = None) /\ unique_ok s' = true.
+Proof. exact ip_put_inm_guard. Qed.
+Print Assumptions C07_ip_if_none_match_guard.
+
+(* a rejected conditional write leaves no trace: the store is the initial one, or the initial one with the rival alone *)
+Theorem C07_ip_rejected_leaves_no_trace : forall p (rv : rivalf) s0 vn b k c cd,
+  match snd (fst (ip_put p rv s0 vn b k c cd)) with
+  | RErr _ => fst (fst (ip_put p rv s0 vn b k c cd)) = s0 \/ fst (fst (ip_put p rv s0 vn b k c cd)) = fst (rv s0)
+  | _ => True
+  end.
+Proof. exact ip_put_rejected. Qed.
+Print Assumptions C07_ip_rejected_leaves_no_trace.
 
 (* ---- non-vacuity ---- *)
 Example C07_ex_fresh_state :
